@@ -822,6 +822,10 @@ func (a *Authenticator) handleSessionResumption(ctx context.Context, sessionID s
 		}
 	}
 
+	if err := a.resumedSessionMeetsPolicy(negotiation, entry); err != nil {
+		return nil, fmt.Errorf("session %s cannot be resumed: %w", redactSessionID(sessionID), err)
+	}
+
 	// Set up encryption with cached key (only for session resumption)
 	if len(negotiation.GetSharedSecret()) > 0 {
 		if err := a.setupStreamEncryption(negotiation); err != nil {
@@ -1428,6 +1432,9 @@ func (a *Authenticator) storeClientSession(negotiation *SecurityNegotiation, dur
 	}
 	_ = policy.Set("AuthMethods", string(negotiation.NegotiatedAuth))
 	_ = policy.Set("CryptoMethods", string(negotiation.NegotiatedCrypto))
+	// Record whether an authentication exchange really ran, so a later resumption
+	// can be judged against the policy in force at that time.
+	_ = policy.Set("Authenticated", negotiation.Authentication)
 	// Store User information for session resumption
 	if negotiation.User != "" {
 		_ = policy.Set("User", negotiation.User)
@@ -1589,6 +1596,16 @@ func (a *Authenticator) resumeSession(ctx context.Context, entry *SessionEntry, 
 		if rv, ok := entry.Policy().EvaluateAttrString("RemoteVersion"); ok {
 			negotiation.ServerConfig.RemoteVersion = rv
 		}
+		if authed, ok := entry.Policy().EvaluateAttrBool("Authenticated"); ok {
+			negotiation.Authentication = authed
+		}
+	}
+
+	// A resumed session is only as good as the handshake that created it. If this
+	// endpoint's policy now REQUIRES what that session never had, riding it would
+	// silently bypass the policy.
+	if err := a.resumedSessionMeetsPolicy(negotiation, entry); err != nil {
+		return fail("cached session does not meet the current security policy", err)
 	}
 
 	// Renew the session lease
@@ -1603,6 +1620,25 @@ func (a *Authenticator) resumeSession(ctx context.Context, entry *SessionEntry, 
 	}
 
 	return negotiation, nil
+}
+
+// resumedSessionMeetsPolicy checks a session about to be resumed against this
+// endpoint's own REQUIRED levels: authentication REQUIRED needs a session whose
+// creating handshake authenticated, encryption or integrity REQUIRED needs a
+// session that carries an AES-GCM key.
+func (a *Authenticator) resumedSessionMeetsPolicy(negotiation *SecurityNegotiation, entry *SessionEntry) error {
+	if a.config == nil {
+		return nil
+	}
+	if a.config.Authentication == SecurityRequired && !negotiation.Authentication {
+		return fmt.Errorf("policy requires authentication but the cached session was not authenticated")
+	}
+	if a.config.Encryption == SecurityRequired || a.config.Integrity == SecurityRequired {
+		if entry.KeyInfo() == nil || len(entry.KeyInfo().Data) == 0 || !isAESGCM(CryptoMethod(entry.KeyInfo().Protocol)) {
+			return fmt.Errorf("policy requires encryption but the cached session has no AES-GCM key")
+		}
+	}
+	return nil
 }
 
 // negotiateSecurity performs security negotiation between client and server
